@@ -81,20 +81,8 @@ fn c18_witness() {
     assert!(v[0] == n);
 }
 
-//@ h=c18_witness_tostring props=C18 cfgs=K1 tier=t t=1800 | funcs: (documented allocating convenience) ToString on a hash | bound: must FAIL under the allocator stubs: to_string is the documented exception | stubs: allocator entry points -> assert!(false)
-#[kani::proof]
-#[kani::unwind(36)]
-#[kani::should_panic]
-#[kani::stub(std::alloc::alloc, no_alloc)]
-#[kani::stub(std::alloc::alloc_zeroed, no_alloc)]
-#[kani::stub(std::alloc::realloc, no_realloc)]
-fn c18_witness_tostring() {
-    use std::string::ToString;
-    let bytes: [u8; 15] = kani::any();
-    let h = Short::try_from(&bytes).unwrap();
-    let s = h.to_string();
-    assert!(s.len() == 32);
-}
+// (a `to_string` witness was tried and dropped: the fmt machinery under the allocator stubs
+// does not finish in 30 min; `c18_witness` already shows that the stubs intercept allocations)
 
 macro_rules! c18_hash_ops {
     ($name:ident, $ty:ty, $n:literal, $l:literal, $unw:literal) => {
